@@ -103,11 +103,12 @@ type spec struct {
 	setPeer        bool // sm2: peer parameters supplied later through SetPeerParameters
 	wire           bool // ecdh: peer keys go through NewPublicKey(bytes); sm2: through sm2.NewPublicKey(bytes)
 	genKey         bool // ecdh: ephemeral keys made by GenerateKey(scripted reader)
+	scrib          int  // caller's buffers (constructor inputs, returned slices) overwritten afterwards: 0 no, 1 zeros, 2 0xFF, 3 random
 }
 
 func (s *spec) String() string {
 	return fmt.Sprintf("gen=%s dA=%x rA=%x dB=%x rB=%x idA=%s idB=%s klen=%d mode=%d setPeer=%v wire=%v genKey=%v",
-		s.gen, s.dA, s.rA, s.dB, s.rB, idDesc(s.idA), idDesc(s.idB), s.klen, s.mode, s.setPeer, s.wire, s.genKey)
+		s.gen, s.dA, s.rA, s.dB, s.rB, idDesc(s.idA), idDesc(s.idB), s.klen, s.mode, s.setPeer, s.wire, s.genKey) + fmt.Sprintf(" scribble=%d", s.scrib)
 }
 
 func idDesc(id []byte) string {
@@ -115,6 +116,37 @@ func idDesc(id []byte) string {
 		return fmt.Sprintf("%x", id)
 	}
 	return fmt.Sprintf("%x..(%d bytes)", id[:8], len(id))
+}
+
+// scribble overwrites buffers the caller owns (inputs handed to a constructor that
+// has returned, or byte slices a method has returned): the library must have taken
+// copies, so nothing it computes later may change ("input buffer independence").
+func scribble(c *mon.Case, mode int, bufs ...[]byte) {
+	if mode == 0 {
+		return
+	}
+	for _, b := range bufs {
+		switch mode {
+		case 1:
+			for i := range b {
+				b[i] = 0
+			}
+		case 2:
+			for i := range b {
+				b[i] = 0xFF
+			}
+		default:
+			c.R.Fill(b)
+		}
+		c.Event("buffers_scribbled", 1)
+	}
+}
+
+func clone(b []byte) []byte {
+	if b == nil {
+		return nil
+	}
+	return append([]byte{}, b...)
 }
 
 func copyPub(p *ecdsa.PublicKey) *ecdsa.PublicKey {
@@ -198,6 +230,7 @@ func ecdhScript(k *big.Int) *mon.Script {
 // reference and checks every clause of the property on it.
 func session(x *mon.Ctx, c *mon.Case, s *spec) {
 	c.Event("sessions", 1)
+	c.Event(fmt.Sprintf("sessions/scribble=%d", s.scrib), 1)
 	idA, idB := effectiveID(s.idA), effectiveID(s.idB)
 	tooLong := len(idA) > sm2kx.MaxUIDLen || len(idB) > sm2kx.MaxUIDLen
 	var ref *sm2kx.Result
@@ -244,7 +277,15 @@ func newKX(priv *sm2.PrivateKey, peer *ecdsa.PublicKey, uid, peerUID []byte, kle
 func sm2Session(c *mon.Case, s *spec, ref *sm2kx.Result, tooLong bool) {
 	var a, b *sm2.PrivateKey
 	var err error
-	if !c.Call("sm2.NewPrivateKeyFromInt", func() {
+	if !c.Call("sm2.NewPrivateKey", func() {
+		if s.scrib != 0 { // byte constructor; the caller wipes its buffers afterwards
+			ba, bb := ec.Bytes32(s.dA), ec.Bytes32(s.dB)
+			if a, err = sm2.NewPrivateKey(ba); err == nil {
+				b, err = sm2.NewPrivateKey(bb)
+			}
+			scribble(c, s.scrib, ba, bb)
+			return
+		}
 		if a, err = sm2.NewPrivateKeyFromInt(s.dA); err == nil {
 			b, err = sm2.NewPrivateKeyFromInt(s.dB)
 		}
@@ -252,7 +293,11 @@ func sm2Session(c *mon.Case, s *spec, ref *sm2kx.Result, tooLong bool) {
 		return
 	}
 	if err != nil {
-		c.Fail("reject", "sm2.NewPrivateKeyFromInt refused a scalar in [1,n-2]: %v", err)
+		c.Fail("reject", "sm2.NewPrivateKey/NewPrivateKeyFromInt refused a scalar in [1,n-2]: %v", err)
+		return
+	}
+	if s.scrib != 0 && (a.D.Cmp(s.dA) != 0 || b.D.Cmp(s.dB) != 0) {
+		c.Fail("mismatch", "sm2.NewPrivateKey: the key changed when the caller overwrote its input buffer: D=%x/%x want %x/%x", a.D, b.D, s.dA, s.dB)
 		return
 	}
 	genA, genB := genFlags(s.mode)
@@ -260,8 +305,10 @@ func sm2Session(c *mon.Case, s *spec, ref *sm2kx.Result, tooLong bool) {
 	if s.wire {
 		var e1, e2 error
 		if !c.Call("sm2.NewPublicKey", func() {
-			peerOfA, e1 = sm2.NewPublicKey(pubBytes(&b.PublicKey))
-			peerOfB, e2 = sm2.NewPublicKey(pubBytes(&a.PublicKey))
+			wa, wb := pubBytes(&b.PublicKey), pubBytes(&a.PublicKey)
+			peerOfA, e1 = sm2.NewPublicKey(wa)
+			peerOfB, e2 = sm2.NewPublicKey(wb)
+			scribble(c, s.scrib, wa, wb)
 		}) {
 			return
 		}
@@ -273,8 +320,10 @@ func sm2Session(c *mon.Case, s *spec, ref *sm2kx.Result, tooLong bool) {
 	var ia, rb *sm2.KeyExchange
 	var errA, errB error
 	if !c.Call("sm2.NewKeyExchange", func() {
-		ia, errA = newKX(a, peerOfA, s.idA, s.idB, s.klen, genA, s.setPeer)
-		rb, errB = newKX(b, peerOfB, s.idB, s.idA, s.klen, genB, s.setPeer)
+		u1, u2, u3, u4 := clone(s.idA), clone(s.idB), clone(s.idB), clone(s.idA)
+		ia, errA = newKX(a, peerOfA, u1, u2, s.klen, genA, s.setPeer)
+		rb, errB = newKX(b, peerOfB, u3, u4, s.klen, genB, s.setPeer)
+		scribble(c, s.scrib, u1, u2, u3, u4)
 	}) {
 		return
 	}
@@ -354,6 +403,7 @@ func sm2Session(c *mon.Case, s *spec, ref *sm2kx.Result, tooLong bool) {
 	if len(sB) == 0 {
 		sBw = nil
 	}
+	scribble(c, s.scrib, sB) // the returned slice is the caller's
 
 	// A4-A10
 	var keyA, sA []byte
@@ -374,6 +424,9 @@ func sm2Session(c *mon.Case, s *spec, ref *sm2kx.Result, tooLong bool) {
 	if len(sA) != 0 {
 		sAw = append([]byte(nil), sA...)
 	}
+	keyAcopy := clone(keyA)
+	scribble(c, s.scrib, keyA, sA)
+	keyA = keyAcopy
 	// B10
 	var keyB []byte
 	if !c.Call("ConfirmInitiator", func() { keyB, err = rb.ConfirmInitiator(sAw) }) {
@@ -435,10 +488,14 @@ func ecdhSession(c *mon.Case, s *spec, ref *sm2kx.Result, tooLong bool) {
 	var err error
 	var consumed [2]int
 	if !c.Call("ecdh key construction", func() {
-		if ea, err = cv.NewPrivateKey(ec.Bytes32(s.dA)); err != nil {
+		bdA, bdB, brA, brB := ec.Bytes32(s.dA), ec.Bytes32(s.dB), ec.Bytes32(s.rA), ec.Bytes32(s.rB)
+		// the caller overwrites its buffers as soon as the constructors have returned,
+		// i.e. before the keys are used for anything (PublicKey() is computed lazily)
+		defer scribble(c, s.scrib, bdA, bdB, brA, brB)
+		if ea, err = cv.NewPrivateKey(bdA); err != nil {
 			return
 		}
-		if eb, err = cv.NewPrivateKey(ec.Bytes32(s.dB)); err != nil {
+		if eb, err = cv.NewPrivateKey(bdB); err != nil {
 			return
 		}
 		if s.genKey {
@@ -450,10 +507,10 @@ func ecdhSession(c *mon.Case, s *spec, ref *sm2kx.Result, tooLong bool) {
 			consumed = [2]int{sa.Consumed(), sb.Consumed()}
 			return
 		}
-		if xa, err = cv.NewPrivateKey(ec.Bytes32(s.rA)); err != nil {
+		if xa, err = cv.NewPrivateKey(brA); err != nil {
 			return
 		}
-		xb, err = cv.NewPrivateKey(ec.Bytes32(s.rB))
+		xb, err = cv.NewPrivateKey(brB)
 	}) {
 		return
 	}
@@ -469,6 +526,18 @@ func ecdhSession(c *mon.Case, s *spec, ref *sm2kx.Result, tooLong bool) {
 		c.Eq("ecdh.GenerateKey scalar rA", xa.Bytes(), ec.Bytes32(s.rA))
 		c.Eq("ecdh.GenerateKey scalar rB", xb.Bytes(), ec.Bytes32(s.rB))
 	}
+	// Bytes() returns copies: scribbling over them must not reach the key
+	if s.scrib != 0 {
+		var o [4][]byte
+		if !c.Call("PrivateKey.Bytes", func() { o = [4][]byte{ea.Bytes(), eb.Bytes(), xa.Bytes(), xb.Bytes()} }) {
+			return
+		}
+		c.Eq("ecdh private key dA after the caller overwrote its input buffer", o[0], ec.Bytes32(s.dA))
+		c.Eq("ecdh private key dB after the caller overwrote its input buffer", o[1], ec.Bytes32(s.dB))
+		c.Eq("ecdh private key rA after the caller overwrote its input buffer", o[2], ec.Bytes32(s.rA))
+		c.Eq("ecdh private key rB after the caller overwrote its input buffer", o[3], ec.Bytes32(s.rB))
+		scribble(c, s.scrib, o[:]...)
+	}
 	var pA, pB, qA, qB *ecdh.PublicKey // static / ephemeral public keys as the peer sees them
 	if !c.Call("ecdh PublicKey", func() { pA, pB, qA, qB = ea.PublicKey(), eb.PublicKey(), xa.PublicKey(), xb.PublicKey() }) {
 		return
@@ -477,8 +546,8 @@ func ecdhSession(c *mon.Case, s *spec, ref *sm2kx.Result, tooLong bool) {
 		var k1, k2 []byte
 		var e1, e2 error
 		if c.Call("SM2SharedKey(long uid)", func() {
-			k1, e1 = qA.SM2SharedKey(false, s.klen, pA, pB, s.idA, s.idB)
-			k2, e2 = qA.SM2SharedKey(true, s.klen, pB, pA, s.idB, s.idA)
+			k1, e1 = qA.SM2SharedKey(false, s.klen, pA, pB, clone(s.idA), clone(s.idB))
+			k2, e2 = qA.SM2SharedKey(true, s.klen, pB, pA, clone(s.idB), clone(s.idA))
 		}) {
 			c.Event("uid_too_long_checked", 2)
 			if e1 == nil || e2 == nil {
@@ -487,17 +556,24 @@ func ecdhSession(c *mon.Case, s *spec, ref *sm2kx.Result, tooLong bool) {
 		}
 		return
 	}
-	c.Eq("ecdh PA", pA.Bytes(), ref.PA.Marshal())
-	c.Eq("ecdh PB", pB.Bytes(), ref.PB.Marshal())
-	c.Eq("ecdh RA", qA.Bytes(), ref.EA.Marshal())
-	c.Eq("ecdh RB", qB.Bytes(), ref.EB.Marshal())
+	// compare a returned slice, then overwrite it: later results must not change
+	eqs := func(what string, got, want []byte) {
+		c.Eq(what, got, want)
+		scribble(c, s.scrib, got)
+	}
+	eqs("ecdh PA", pA.Bytes(), ref.PA.Marshal())
+	eqs("ecdh PB", pB.Bytes(), ref.PB.Marshal())
+	eqs("ecdh RA", qA.Bytes(), ref.EA.Marshal())
+	eqs("ecdh RB", qB.Bytes(), ref.EB.Marshal())
 	if s.wire {
 		var errs [4]error
 		if !c.Call("ecdh.NewPublicKey", func() {
-			pA, errs[0] = cv.NewPublicKey(ref.PA.Marshal())
-			pB, errs[1] = cv.NewPublicKey(ref.PB.Marshal())
-			qA, errs[2] = cv.NewPublicKey(ref.EA.Marshal())
-			qB, errs[3] = cv.NewPublicKey(ref.EB.Marshal())
+			w := [4][]byte{ref.PA.Marshal(), ref.PB.Marshal(), ref.EA.Marshal(), ref.EB.Marshal()}
+			pA, errs[0] = cv.NewPublicKey(w[0])
+			pB, errs[1] = cv.NewPublicKey(w[1])
+			qA, errs[2] = cv.NewPublicKey(w[2])
+			qB, errs[3] = cv.NewPublicKey(w[3])
+			scribble(c, s.scrib, w[:]...)
 		}) {
 			return
 		}
@@ -528,15 +604,26 @@ func ecdhSession(c *mon.Case, s *spec, ref *sm2kx.Result, tooLong bool) {
 		c.Fail("reject", "SM2MQV failed on valid inputs: %v / %v", errA, errB)
 		return
 	}
-	c.Eq("ecdh U (initiator)", va.Bytes(), ref.U.Marshal())
-	c.Eq("ecdh V (responder)", vb.Bytes(), ref.V.Marshal())
+	eqs("ecdh U (initiator)", va.Bytes(), ref.U.Marshal())
+	eqs("ecdh V (responder)", vb.Bytes(), ref.V.Marshal())
 	var k1, k2, za, zb []byte
 	var e [4]error
 	if !c.Call("SM2SharedKey", func() {
-		k1, e[0] = va.SM2SharedKey(false, s.klen, ea.PublicKey(), pB, s.idA, s.idB)
-		k2, e[1] = vb.SM2SharedKey(true, s.klen, eb.PublicKey(), pA, s.idB, s.idA)
-		za, e[2] = pA.SM2ZA(sm3.New(), s.idA)
-		zb, e[3] = pB.SM2ZA(sm3.New(), s.idB)
+		u := [6][]byte{clone(s.idA), clone(s.idB), clone(s.idB), clone(s.idA), clone(s.idA), clone(s.idB)}
+		k1, e[0] = va.SM2SharedKey(false, s.klen, ea.PublicKey(), pB, u[0], u[1])
+		k2, e[1] = vb.SM2SharedKey(true, s.klen, eb.PublicKey(), pA, u[2], u[3])
+		za, e[2] = pA.SM2ZA(sm3.New(), u[4])
+		zb, e[3] = pB.SM2ZA(sm3.New(), u[5])
+		scribble(c, s.scrib, u[:]...)
+		if s.scrib != 0 && e[0] == nil {
+			// the first result is the caller's: overwriting it must not disturb a second derivation
+			first := clone(k1)
+			scribble(c, s.scrib, k1)
+			k1, e[0] = va.SM2SharedKey(false, s.klen, ea.PublicKey(), pB, s.idA, s.idB)
+			if e[0] == nil && !bytes.Equal(first, k1) {
+				c.Fail("mismatch", "SM2SharedKey: second derivation %x differs from the first %x after the caller overwrote the first result", k1, first)
+			}
+		}
 	}) {
 		return
 	}
